@@ -105,6 +105,8 @@ def catalogue():
     # map
     cat.append(("map", ("int",), lambda a: ["map", a[0], [[L(1), L(10)], [L(2), L(20)]], None]))
     cat.append(("mapd", ("int",), lambda a: ["map", a[0], [[L(1), L(10)], [L(-7), L(70)]], L(0)]))
+    cat.append(("casemixstr", ("bool", "int"), lambda a: ["cast", ["case", [[a[0], L(1.5)]], a[1]], "str"]))
+    cat.append(("casemixdiv", ("bool", "int"), lambda a: ["truediv", ["case", [[a[0], L(0.5)]], a[1]], L(2)]))
     cat.append(("mapdn", ("int",), lambda a: ["map", a[0], [[L(1), L(10)]], L(None)]))
     cat.append(("maptuple", ("int",), lambda a: ["map", a[0], [[["tuple", L(1), L(2)], L(5)], [["tuple", L(-1)], L(6)]], L(0)]))
     cat.append(("mapstr", ("str",), lambda a: ["map", a[0], [[L("a"), L("x")], [L(""), L("empty")]], None]))
